@@ -38,6 +38,7 @@ TABLE = {
     "reverts/r17_duration_observer_midrun.diff": ["C04"],
     "reverts/r18_notify_skip.diff": ["C10"],
     "reverts/r19_0032464.diff": ["C20"],
+    "reverts/r20_ae5c979.diff": ["C12", "C11"],
     "c10_notify_snapshot_no_recheck.diff": ["C10"],
 }
 
